@@ -125,3 +125,25 @@ CHECKS["C03"] = {
         {"variant": "tsan", "engine": "stress", "procs": 2, "rounds_quick": 1500, "rounds_thorough": 30000},
     ],
 }
+
+CHECKS["C04"] = {
+    "src": "C04.cpp",
+    "level": "exploration",
+    "rule": "tiny rounds on cow_guarded<Cell>: 2-5 threads x 1-4 actions (write handle: check initial content, append own id, optionally "
+            "move-construct the handle, then commit or cancel(); snapshot via lock_shared / try forms, kept across 0-2 later actions and "
+            "re-validated). Oracles: snapshot content/pointer/liveness unchanged while held, committed objects frozen (any later write window "
+            "is a violation), each write handle started from the latest commit, final log = committed ids once each in commit order, no "
+            "cancelled id, no stale snapshot (logical clock), writer lock free at quiescence (a further lock()+cancel() completes), payload "
+            "instance count returns to baseline. Non-trivial: a snapshot overlapped a write in logical time or was kept across later "
+            "actions; distinct = (program, schedule signature, observed snapshots).",
+    "assumptions": LOCKFREE_ASSUME + ["cow_guarded::try_lock* do not compile when instantiated and are not exercised",
+                                      "a handle is released by the thread that locked it"],
+    "runs": [
+        {"variant": "plain", "engine": "serial", "procs": 5, "rounds_quick": 6000, "rounds_thorough": 120000},
+        {"variant": "plain", "engine": "stress", "procs": 3, "rounds_quick": 4000, "rounds_thorough": 80000},
+        {"variant": "plain", "engine": "stress", "tso": 1, "procs": 2, "rounds_quick": 3000, "rounds_thorough": 60000},
+        {"variant": "asan", "engine": "stress", "procs": 2, "rounds_quick": 2000, "rounds_thorough": 40000},
+        {"variant": "asan", "engine": "serial", "procs": 2, "rounds_quick": 2000, "rounds_thorough": 40000},
+        {"variant": "tsan", "engine": "stress", "procs": 2, "rounds_quick": 1500, "rounds_thorough": 30000},
+    ],
+}
